@@ -16,7 +16,7 @@ import ast
 from ..core import walk_own, norm, is_self_attr, AnalysisError
 from ..report import Ob, Floor
 from ..rules.effect import EffectIndex, OptionInfluence
-from ..rules import twin, globalstate, direction, memo, plumb
+from ..rules import twin, globalstate, direction, memo, plumb, mergetable
 from .. import exceptions
 from .c18 import writer_obligations
 
@@ -124,6 +124,7 @@ def check(ctx, tier):
     o_opt, n_opt = ctx.attempt(plumb.all_options, ctx, "D-h", default=([], 0))
     obs += o_opt
     obs += ctx.attempt(lambda c, cl: plumb.no_cross_option_flow(c, cl)[0], ctx, "D-h", default=[])
+    obs += ctx.attempt(lambda c, cl: mergetable.invariants(c, cl, which=('or-scope', 'direction'))[0], ctx, "D-i", default=[])
     exceptions.apply(obs)
     floors = [Floor("option control sites examined", nsites, 30), Floor("OR construction sites", len(sites), 1),
               Floor("classes examined for class-level state", n_glob, 60)]
